@@ -87,7 +87,9 @@ func runAcceptSeq(seq []string) (trace string, wall time.Duration, err error) {
 			// permanent errors of several shapes, none of them caused by Shutdown (which is not called in these sequences)
 			permErrs := []error{nil, &net.OpError{Op: "accept", Net: "tcp", Err: net.ErrClosed}, net.ErrClosed, io.EOF,
 				&net.OpError{Op: "accept", Net: "tcp", Err: os.NewSyscallError("accept", syscall.EINVAL)},
-				&net.OpError{Op: "accept", Net: "tcp", Err: os.NewSyscallError("accept", syscall.ECONNABORTED)}, rec.TimeoutOnlyErr{}}
+				&net.OpError{Op: "accept", Net: "tcp", Err: os.NewSyscallError("accept", syscall.ECONNABORTED)}, rec.TimeoutOnlyErr{},
+				// a wrapper listener giving up: the error it returns is no net.Error, the one it wraps is a temporary one
+				fmt.Errorf("listener: giving up after 3 attempts: %w", rec.TempTimeoutErr{})}
 			permanentErr = permErrs[(i+len(seq))%len(permErrs)]
 			if permanentErr == nil {
 				permanentErr = rec.ErrPermanent
